@@ -453,6 +453,7 @@ type c36World struct {
 	me, p, w *vnode
 	l        *vnode // nil when I am the lighthouse
 	byUDP    map[netip.AddrPort]*vnode
+	specs    []vnodeSpec
 	inflight []vpkt
 	wire     int // number of datagrams ever written
 	wireH    hash.Hash
@@ -470,8 +471,18 @@ type c36World struct {
 func c36NewWorld(t testing.TB, cfg c36Cfg, seed int64, st *c36Stats) *c36World {
 	w := &c36World{t: t, cfg: cfg, ref: cfg.ref(), st: st, blocked: map[netip.AddrPort]bool{}, why: map[netip.AddrPort]map[string]bool{},
 		pTunnels: map[uint32]bool{}, byUDP: map[netip.AddrPort]*vnode{}, wireH: sha256.New()}
-	w.net = vNewNet(t, seed, cfg.specs()...)
-	w.me, w.p, w.w = w.net.node("me"), w.net.node("p"), w.net.node("w")
+	// me (and its lighthouse) are assembled now; P and W are assembled the first time a datagram or an event needs
+	// them (an idle node and an absent node are indistinguishable to me). Their certificates exist before the
+	// randomness is pinned (c36Prep).
+	specs := cfg.specs()
+	c36Prep(specs)
+	first := []vnodeSpec{specs[0]}
+	if !cfg.Lighthouse {
+		first = append(first, specs[3])
+	}
+	w.specs = specs
+	w.net = vNewNet(t, seed, first...)
+	w.me = w.net.node("me")
 	if !cfg.Lighthouse {
 		w.l = w.net.node("l")
 	}
@@ -500,6 +511,32 @@ func c36NewWorld(t testing.TB, cfg c36Cfg, seed int64, st *c36Stats) *c36World {
 }
 
 func (w *c36World) close() { w.net.close() }
+
+func c36Prep(specs []vnodeSpec) {
+	pk := vGetPKI()
+	for _, sp := range specs {
+		v := sp.Version
+		if v == 0 {
+			v = 2
+		}
+		pk.leafFor(sp.Name, sp.Networks, sp.Unsafe, sp.Groups, v)
+	}
+}
+
+// peer returns (assembling it on first use) the real node P (i=1) or W (i=2).
+func (w *c36World) peer(i int) *vnode {
+	pp := &w.p
+	if i == 2 {
+		pp = &w.w
+	}
+	if *pp == nil {
+		n := vNewNode(w.t, w.specs[i])
+		w.net.nodes = append(w.net.nodes, n)
+		w.byUDP[n.udp] = n
+		*pp = n
+	}
+	return *pp
+}
 
 // supply records in the model that a source offered addrs for peer (for vacuity: used / refused with which reason).
 func (w *c36World) supply(source string, peer netip.Addr, addrs []netip.AddrPort) {
@@ -823,6 +860,12 @@ func (w *c36World) collect() {
 
 // deliverOne hands a datagram to its destination node (claimed source = from). Datagrams to nobody vanish.
 func (w *c36World) deliverOne(p vpkt, from netip.AddrPort) {
+	switch p.To {
+	case c36PUDP:
+		w.peer(1)
+	case c36WUDP:
+		w.peer(2)
+	}
 	dst := w.byUDP[p.To]
 	if dst == nil {
 		w.st.inc("datagrams_to_nobody")
@@ -924,7 +967,7 @@ func (w *c36World) apply(ev string) {
 	case "update": // update:<list> — P reports its addresses to me (I am a lighthouse)
 		l := c36Lists[f[1]]
 		w.supply("update", c36PVpn, append(append([]netip.AddrPort{}, l.v4...), l.v6...))
-		w.sendLH(w.p, c36Meta(NebulaMeta_HostUpdateNotification, netip.Addr{}, l))
+		w.sendLH(w.peer(1), c36Meta(NebulaMeta_HostUpdateNotification, netip.Addr{}, l))
 	case "punch": // punch:<list> — the lighthouse asks me to punch towards P; the punch jobs then become due and run
 		l := c36Lists[f[1]]
 		w.supply("punch-notification", c36PVpn, append(append([]netip.AddrPort{}, l.v4...), l.v6...))
@@ -962,6 +1005,7 @@ func (w *c36World) apply(ev string) {
 		w.collect()
 	case "from": // from:<addr> — P's next packet towards me (handshake or data) arrives from this source address
 		x := c36AP(strings.TrimPrefix(ev, "from:"))
+		w.peer(1)
 		w.p.conn.take()
 		w.p.tunSend(vUDPPacket(c36PVpn, c36MeVpn, 2000, 1000, []byte("c36-from-p")))
 		out := w.p.takeOut()
@@ -1096,7 +1140,7 @@ func c36RLKey(r *RemoteList) string {
 
 func c36PeerKey(n *vnode) string {
 	if n == nil {
-		return "-"
+		return "t0/p-1" // not assembled yet == idle
 	}
 	hmap := n.f.hostMap
 	hmap.RLock()
@@ -1208,6 +1252,7 @@ type c36WorkerOut struct {
 	Trans   int64     `json:"transitions"`
 	Depth   int       `json:"max_depth"`
 	Capped  bool      `json:"capped"`
+	DepthCapped bool  `json:"depth_capped"`
 	Samples [][]string `json:"samples"`
 	Broken  string    `json:"broken"`
 	CPU     float64   `json:"cpu_s"`
@@ -1245,7 +1290,7 @@ func c36RunCfg(t *testing.T, c *mc.Check, cfg c36Cfg, depth int, deadline time.T
 			break
 		}
 		slice := time.Now().Add(left / time.Duration(len(seeds)-si))
-		stop := func() bool { return time.Now().After(slice) || st.nviol > 50 }
+		stop := func() bool { return time.Now().After(slice) }
 		res := mc.BFSReplay(c, mc.BFSConfig[string]{
 			MaxDepth: depth, Workers: 1, Stop: stop,
 			Label: func(e string) string { return e },
@@ -1270,8 +1315,10 @@ func c36RunCfg(t *testing.T, c *mc.Check, cfg c36Cfg, depth int, deadline time.T
 		if res.MaxDepth+len(prefix) > out.Depth {
 			out.Depth = res.MaxDepth + len(prefix)
 		}
-		if !res.Exhaustive {
-			out.Capped = true
+		if time.Now().After(slice) {
+			out.Capped = true // the time slice of this seed ran out
+		} else if !res.Exhaustive {
+			out.DepthCapped = true // frontier not empty at the depth bound
 		}
 		for _, s := range res.Deepest {
 			if len(out.Samples) < 4 {
@@ -1395,6 +1442,8 @@ func TestVerifC36(t *testing.T) {
 	var cpu float64
 	maxDepth := 0
 	perCfg := map[string]any{}
+	timeCapped := []string{}
+	depthCapped := 0
 	for k := range pick {
 		if errs[k] != "" {
 			c.Broken("%s", errs[k])
@@ -1416,13 +1465,22 @@ func TestVerifC36(t *testing.T) {
 			maxDepth = o.Depth
 		}
 		if o.Capped {
-			c.Capped("time budget / depth cap in configuration " + o.Cfg)
+			timeCapped = append(timeCapped, o.Cfg)
 		}
-		perCfg[o.Cfg] = fmt.Sprintf("states=%d transitions=%d capped=%v", o.States, o.Trans, o.Capped)
+		if o.DepthCapped {
+			depthCapped++
+		}
+		perCfg[o.Cfg] = fmt.Sprintf("states=%d transitions=%d time_capped=%v cpu_s=%.1f", o.States, o.Trans, o.Capped, o.CPU)
 		for _, s := range o.Samples {
 			c.Sample(s)
 		}
 	}
+	if len(timeCapped) > 0 {
+		c.Capped(fmt.Sprintf("time budget ran out in %d configuration(s); depth bound %d", len(timeCapped), depth))
+	} else if depthCapped > 0 {
+		c.Capped(fmt.Sprintf("bfs depth bound %d after each seed prefix (states at the bound are judged, not expanded)", depth))
+	}
+	c.Set("time_capped_configurations", timeCapped)
 	c.Set("states", states)
 	c.Set("transitions", trans)
 	c.Set("traces_validated_against_impl", trans)
@@ -1476,7 +1534,7 @@ func TestVerifC36(t *testing.T) {
 	need(sum["used:reply:punch"]+sum["used:update:punch"] > 0, "keep-alive punches to reported addresses never observed")
 	need(sum["dns_updates"] > 0, "no DNS result update applied")
 	c.Set("vacuity_guards_unmet", unmet)
-	if len(unmet) > 0 {
+	if len(unmet) > 0 && len(timeCapped) == 0 {
 		c.Require(false, "%v", unmet)
 	}
 }
